@@ -113,6 +113,21 @@ def replug(path, kind="rename-over"):
     return os.stat(path).st_ino
 
 
+def flip_back(path):
+    """the node that was at the path before (moved aside by the last 'moved-aside' replug, still alive, same inode) returns to
+    the path; the current one is moved aside in turn (a by-id link that flips between two live nodes; mv a a.tmp; mv a.old a).
+    Returns False when there is no such earlier node"""
+    global _n
+    d, b = os.path.dirname(path), os.path.basename(path)
+    olds = sorted((fn for fn in os.listdir(d) if fn.startswith(b + ".old")), key=lambda fn: int(fn.rsplit(".old", 1)[1]))
+    if not olds or os.path.islink(path) or not os.path.exists(path):
+        return False
+    _n += 1
+    os.rename(path, path + ".old%d" % _n)
+    os.rename(os.path.join(d, olds[-1]), path)
+    return True
+
+
 def remove_all(path):
     """remove the node and every file created for it"""
     d = os.path.dirname(path)
